@@ -1,3 +1,245 @@
 import TlsModel.Proto
-/- driver stub for C14: replaced when the model exists -/
-def main : IO Unit := Tls.protoMain (fun _ => none)
+import TlsModel.IO
+import TlsModel.Gen.Wrappers
+/-
+  Stateful driver for C14: executes the IO model under a scripted schedule.
+
+    sock <streamhex> <rsched> <ssched> <buffered 0|1>   reset the device
+         rsched: comma list of  c<k> | wb | eof | err     ssched: a<k> | wb | err     ("-" = empty)
+    feed <hex> <rsched>            append bytes in flight / receive events
+    recvall <n>                    _sockRecvAll(n)           -> y=<yields> r=<res> up=<upstream hex>
+    recvhdr                        _recvHeader()
+    recordrecv <limit> <tls13 0|1> RecordSocket.recv()
+    sendall <hex>                  _sockSendAll(data)        -> y=.. r=.. sent=<hex>
+    recordsend <vmaj> <vmin> <type> <hex> <padding>
+    brecv <n> | bsend <hex> | bsendall <hex> | bflush | bufw <0|1>     BufferedSocket methods
+    sent                           bytes accepted by the raw socket so far, write queue
+    dnew | dtls | dstatic t n | ddynamic t off sos | dadd t hex | dget | dempty | dclear
+    getall <tls13 0|1> <records>   records: type:ssl2:hex;...  -> everything _getNextRecord delivers
+    asmnew | asm <op> <gen>        op: inRead inWrite setHandshake setClose setWrite
+                                   gen: y<v> | stop | raise    -> state and outcome
+    wrappers                       the generated blocking-wrapper shape facts
+-/
+open Tls Tls.IO
+
+structure St where
+  dev : BSock := {}
+  buffered : Bool := false
+  defrag : Defrag := {}
+  asm : ASM := {}
+
+def parseREv (s : String) : Option REv :=
+  if s == "wb" then some .wb else if s == "eof" then some .eof else if s == "err" then some .err
+  else if s.startsWith "c" then (s.drop 1).toNat?.map .chunk else none
+
+def parseSEv (s : String) : Option SEv :=
+  if s == "wb" then some .wb else if s == "err" then some .err
+  else if s.startsWith "a" then (s.drop 1).toNat?.map .accept else none
+
+def parseList {α : Type} (f : String → Option α) (s : String) : Option (List α) :=
+  if s == "-" then some [] else (s.splitOn ",").mapM f
+
+def excName : Exc → String
+  | .abruptClose => "abruptClose" | .socketError => "socketError"
+  | .illegalParameter => "illegalParameter" | .recordOverflow => "recordOverflow"
+  | .syntaxError => "syntaxError" | .indexError => "indexError" | .valueError => "valueError"
+  | .keyError => "keyError" | .unexpectedMessage => "unexpectedMessage"
+
+def resStr {α : Type} (f : α → String) : Res α → String
+  | .ok a => "ok:" ++ f a
+  | .exc e => "exc:" ++ excName e
+  | .pending => "pending"
+  | .fuelOut => "fuelout"
+
+def yStr (ys : List Nat) : String :=
+  if ys.isEmpty then "-" else String.join (ys.map toString)
+
+def hdrStr (h : Header) : String :=
+  s!"{h.type},{h.vmaj},{h.vmin},{h.length},{boolOut h.ssl2},{h.padding},{boolOut h.securityEscape}"
+
+def upstream (st : St) : Bytes := st.dev.readBuf ++ st.dev.inner.stream
+
+/-- run a reader on the raw socket or through the BufferedSocket -/
+def runR {α : Type} (st : St) (raw : Sock → Out Sock α) (buf : BSock → Out BSock α)
+    (f : α → String) : St × Option String :=
+  if st.buffered then
+    let o := buf st.dev
+    let st' := { st with dev := o.dev }
+    (st', some s!"y={yStr o.yields} r={resStr f o.res} up={hexOut (upstream st')}")
+  else
+    let o := raw st.dev.inner
+    let st' := { st with dev := { st.dev with inner := o.dev } }
+    (st', some s!"y={yStr o.yields} r={resStr f o.res} up={hexOut (upstream st')}")
+
+def runS (st : St) (raw : Sock → Out Sock Unit) (buf : BSock → Out BSock Unit) : St × Option String :=
+  if st.buffered then
+    let o := buf st.dev
+    let st' := { st with dev := o.dev }
+    (st', some s!"y={yStr o.yields} r={resStr (fun _ => "-") o.res} sent={hexOut st'.dev.inner.sent}")
+  else
+    let o := raw st.dev.inner
+    let st' := { st with dev := { st.dev with inner := o.dev } }
+    (st', some s!"y={yStr o.yields} r={resStr (fun _ => "-") o.res} sent={hexOut st'.dev.inner.sent}")
+
+def parseRec (s : String) : Option Rec :=
+  match s.splitOn ":" with
+  | [t, z, d] => do
+    let t ← t.toNat?
+    let d ← ofHex d
+    some { type := t, ssl2 := z == "1", data := d }
+  | _ => none
+
+def goutStr : GOut → String
+  | .msg t d => s!"m{t}:{hexOut d}"
+  | .record r => s!"r{r.type}:{if r.ssl2 then "1" else "0"}:{hexOut r.data}"
+
+def defragStr (d : Defrag) : String :=
+  String.intercalate "," (d.buffers.map fun (k, v) => s!"{k}={hexOut v}")
+
+def asmStr (a : ASM) : String :=
+  let b (x : Bool) := if x then "1" else "0"
+  let r := match a.result with | none => "N" | some v => toString v
+  s!"{b a.handshaker}{b a.closer}{b a.reader}{b a.writer}/{r}"
+
+def asmResStr : AsmRes → String
+  | .ok evs => "ok" ++ String.join (evs.map fun
+      | .outConnect => "+connect" | .outClose => "+close" | .outRead => "+read" | .outWrite => "+write")
+  | .assertionError => "AssertionError"
+  | .raised => "raised"
+
+def parseGen (s : String) : Option GenStep :=
+  if s == "stop" then some .stop else if s == "raise" then some .raise
+  else if s.startsWith "y" then (s.drop 1).toNat?.map .yld else none
+
+def parseOp (s : String) : Option AsmOp :=
+  match s with
+  | "inRead" => some .inRead | "inWrite" => some .inWrite | "setHandshake" => some .setHandshake
+  | "setClose" => some .setClose | "setWrite" => some .setWrite | _ => none
+
+def exceptStr {α : Type} (f : α → String) : Except Exc α → String
+  | .ok a => "ok:" ++ f a
+  | .error e => "exc:" ++ excName e
+
+def handle (st : St) (toks : List String) : St × Option String :=
+  match toks with
+  | ["sock", stream, rs, ss, b] =>
+    match ofHex stream, parseList parseREv rs, parseList parseSEv ss with
+    | some stream, some rs, some ss =>
+      ({ st with dev := { inner := { stream := stream, rsched := rs, ssched := ss } }, buffered := b == "1" },
+       some "ok")
+    | _, _, _ => (st, none)
+  | ["feed", data, rs] =>
+    match ofHex data, parseList parseREv rs with
+    | some data, some rs =>
+      let i := st.dev.inner
+      ({ st with dev := { st.dev with inner := { i with stream := i.stream ++ data, rsched := i.rsched ++ rs } } },
+       some "ok")
+    | _, _ => (st, none)
+  | ["recvall", n] =>
+    match n.toNat? with
+    | some n => runR st (sockRecvAll n) (sockRecvAll n) hexOut
+    | none => (st, none)
+  | ["recvhdr"] => runR st recvHeader recvHeader hdrStr
+  | ["recordrecv", lim, t13] =>
+    match lim.toNat? with
+    | some lim =>
+      let cfg : RSCfg := { recvRecordLimit := lim, tls13record := t13 == "1" }
+      runR st (recordRecv cfg) (recordRecv cfg) (fun (h, b) => hdrStr h ++ "/" ++ hexOut b)
+    | none => (st, none)
+  | ["sendall", data] =>
+    match ofHex data with
+    | some data => runS st (sockSendAll data) (sockSendAll data)
+    | none => (st, none)
+  | ["recordsend", vmaj, vmin, ty, data, pad] =>
+    match vmaj.toNat?, vmin.toNat?, ty.toNat?, ofHex data, pad.toNat? with
+    | some vmaj, some vmin, some ty, some data, some pad =>
+      runS st (recordSend vmaj vmin ty data pad) (recordSend vmaj vmin ty data pad)
+    | _, _, _, _, _ => (st, none)
+  | ["brecv", n] =>
+    match n.toNat? with
+    | some n =>
+      let (r, d) := st.dev.recv n
+      let st' := { st with dev := d }
+      let rs := match r with
+        | .data b => "data:" ++ hexOut b | .wouldBlock => "wouldblock" | .error => "error"
+        | .exhausted => "exhausted"
+      (st', some s!"{rs} buf={hexOut d.readBuf} up={hexOut (upstream st')}")
+    | none => (st, none)
+  | ["bsend", data] =>
+    match ofHex data with
+    | some data =>
+      let (r, d) := st.dev.send data
+      let rs := match r with
+        | .sent k => s!"sent:{k}" | .wouldBlock => "wouldblock" | .error => "error" | .exhausted => "exhausted"
+      ({ st with dev := d }, some rs)
+    | none => (st, none)
+  | ["bsendall", data] =>
+    match ofHex data with
+    | some data => ({ st with dev := st.dev.sendall data }, some "ok")
+    | none => (st, none)
+  | ["bflush"] => ({ st with dev := st.dev.flush }, some "ok")
+  | ["bufw", b] => ({ st with dev := { st.dev with bufferWrites := b == "1" } }, some "ok")
+  | ["sent"] =>
+    (st, some s!"sent={hexOut st.dev.inner.sent} queue={String.intercalate "," (st.dev.writeQueue.map hexOut)}")
+  | ["dnew"] => ({ st with defrag := {} }, some "ok")
+  | ["dtls"] => ({ st with defrag := tlsDefrag }, some "ok")
+  | ["dstatic", t, n] =>
+    match t.toNat?, n.toNat? with
+    | some t, some n =>
+      match st.defrag.addStaticSize t n with
+      | .ok d => ({ st with defrag := d }, some "ok")
+      | .error e => (st, some ("exc:" ++ excName e))
+    | _, _ => (st, none)
+  | ["ddynamic", t, off, sos] =>
+    match t.toNat?, off.toNat?, sos.toNat? with
+    | some t, some off, some sos =>
+      match st.defrag.addDynamicSize t off sos with
+      | .ok d => ({ st with defrag := d }, some "ok")
+      | .error e => (st, some ("exc:" ++ excName e))
+    | _, _, _ => (st, none)
+  | ["dadd", t, data] =>
+    match t.toNat?, ofHex data with
+    | some t, some data =>
+      match st.defrag.addData t data with
+      | .ok d => ({ st with defrag := d }, some "ok")
+      | .error e => (st, some ("exc:" ++ excName e))
+    | _, _ => (st, none)
+  | ["dget"] =>
+    match st.defrag.getMessage with
+    | .ok (some (t, m), d) => ({ st with defrag := d }, some s!"msg:{t}:{hexOut m} bufs={defragStr d}")
+    | .ok (none, d) => ({ st with defrag := d }, some s!"none bufs={defragStr d}")
+    | .error e => (st, some ("exc:" ++ excName e))
+  | ["dempty"] => (st, some (boolOut st.defrag.isEmpty))
+  | ["dclear"] => ({ st with defrag := st.defrag.clearBuffers }, some "ok")
+  | ["getall", t13, recs] =>
+    let recs := if recs == "-" then some [] else (recs.splitOn ";").mapM parseRec
+    match recs with
+    | some recs =>
+      let fuel := recs.foldl (fun acc r => acc + r.data.length + 2) 2 +
+                  st.defrag.buffers.foldl (fun acc kv => acc + kv.2.length) 0
+      let (gs, e, d) := getAll (t13 == "1") fuel st.defrag recs
+      let es := match e with | none => "none" | some e => excName e
+      ({ st with defrag := d },
+       some s!"out={if gs.isEmpty then "-" else String.intercalate ";" (gs.map goutStr)} exc={es} bufs={if e.isSome then "?" else defragStr d}")
+    | none => (st, none)
+  | ["asmnew"] => ({ st with asm := {} }, some (asmStr {}))
+  | ["asmset", h, c, r, w, res] =>
+    let b (x : String) := x == "1"
+    let res := if res == "N" then some none else res.toNat?.map some
+    match res with
+    | some res =>
+      let a : ASM := { handshaker := b h, closer := b c, reader := b r, writer := b w, result := res }
+      ({ st with asm := a }, some (asmStr a))
+    | none => (st, none)
+  | ["asm", op, g] =>
+    match parseOp op, parseGen g with
+    | some op, some g =>
+      let (a, r) := st.asm.step op g
+      ({ st with asm := a },
+       some s!"{asmStr a} {asmResStr r} wr={repr a.wantsReadEvent} ww={repr a.wantsWriteEvent}")
+    | _, _ => (st, none)
+  | ["wrappers"] =>
+    (st, some (String.intercalate "," (Tls.Gen.Wrappers.facts.map fun (n, b) => s!"{n}={boolOut b}")))
+  | _ => (st, none)
+
+def main : IO Unit := Tls.protoMainS handle ({} : St)
